@@ -1,5 +1,6 @@
 mod entity;
 mod gen_serve;
+mod histories;
 mod rng;
 mod serve_engine;
 mod val;
@@ -17,7 +18,9 @@ fn main() {
         std::process::exit(2);
     }
     // panics inside the implementation are results, not noise
-    std::panic::set_hook(Box::new(|_| {}));
+    if std::env::var("HS_PANIC").is_err() {
+        std::panic::set_hook(Box::new(|_| {}));
+    }
     match args[1].as_str() {
         "gen-run" => {
             let prop = arg(&args, "--property").expect("--property");
@@ -37,8 +40,45 @@ fn main() {
                 writeln!(cases, "serve {} {}", id, v.to_string()).unwrap();
                 writeln!(meta, "{}\t{}\t{}", id, c.class.replace('\t', " ").replace('\n', " "), o.checks.join(",")).unwrap();
             };
+            let n_mixed = if thorough { 60000 } else { 4000 };
             match prop.as_str() {
+                "C01" => {
+                    gen_serve::gen_mixed(&mut rng, n_mixed, "c01", &mut emit_serve);
+                    gen_serve::gen_chunkings(&mut rng, thorough, &mut emit_serve);
+                    gen_serve::gen_c06(&mut rng.fork(), false, &mut emit_serve);
+                }
+                "C02" => {
+                    gen_serve::gen_mixed(&mut rng, n_mixed, "c02", &mut emit_serve);
+                    gen_serve::gen_chunkings(&mut rng, thorough, &mut emit_serve);
+                }
                 "C03" => gen_serve::gen_c03(&mut rng, thorough, &mut emit_serve),
+                "C04" => gen_serve::gen_c04(&mut rng, thorough, &mut emit_serve),
+                "C05" => gen_serve::gen_c05(&mut rng, thorough, &mut emit_serve),
+                "C06" => gen_serve::gen_c06(&mut rng, thorough, &mut emit_serve),
+                "C07" => {
+                    gen_serve::gen_c07(&mut rng, thorough, &mut emit_serve);
+                    gen_serve::gen_mixed(&mut rng, n_mixed / 4, "c20", &mut emit_serve);
+                }
+                "C12" => {
+                    gen_serve::gen_mixed(&mut rng, n_mixed, "c12", &mut emit_serve);
+                    gen_serve::gen_c06(&mut rng.fork(), false, &mut emit_serve);
+                    gen_serve::gen_c07(&mut rng, false, &mut emit_serve);
+                    gen_serve::gen_chunkings(&mut rng, false, &mut emit_serve);
+                }
+                "C13" => gen_serve::gen_mixed(&mut rng, n_mixed * 3, "c13", &mut emit_serve),
+                "C14" => {
+                    drop(emit_serve);
+                    histories::gen_c14(&mut rng, thorough, &mut cases, &mut meta, &prop);
+                }
+                "C15" => {
+                    drop(emit_serve);
+                    histories::gen_c15(&mut rng, thorough, &mut cases, &mut meta, &prop);
+                }
+                "C20" => {
+                    gen_serve::gen_c07(&mut rng, true, &mut emit_serve);
+                    gen_serve::gen_mixed(&mut rng, n_mixed, "c20", &mut emit_serve);
+                    gen_serve::gen_c06(&mut rng.fork(), false, &mut emit_serve);
+                }
                 _ => {
                     eprintln!("unknown property {}", prop);
                     std::process::exit(2);
